@@ -4,6 +4,9 @@ package main
 // Every random choice comes from one splitmix64 stream seeded by VERIF_SEED.
 
 import (
+	"hash/adler32"
+	"hash/crc32"
+	"hash/fnv"
 	"math/big"
 	"strconv"
 	"encoding/base32"
@@ -153,6 +156,15 @@ func interestingValues() []uint32 {
 func genC01(r *rng, n int, hostile bool) []string {
 	var out []string
 	out = append(out, rareOps(r)...)
+	// keys at the hash block sizes and their neighbours (HMAC treats keys up to / beyond one block differently), every hash
+	for _, kl := range []int{19, 20, 21, 63, 64, 65, 127, 128, 129} {
+		for a := 0; a < 3; a++ {
+			key := r.bytes(kl)
+			c := genCounter(r)
+			out = append(out, fmt.Sprintf("derive %s %d %d %d", hx(key), c, pick(r, []int{6, 8, 10}), a),
+				fmt.Sprintf("gvhotp %s %d %d %s", hxs(spell(r, key)), c, c, paramStr(6, 0, 1, a)))
+		}
+	}
 	// the complete finite grid of the truncate + formatter stage: all 16 offsets x boundary values, and
 	// every digit count x boundary values for the three formatters
 	mods := []uint64{1, 10, 100, 1000, 10000, 100000, 1000000, 10000000, 100000000, 1000000000, 10000000000}
@@ -725,6 +737,117 @@ func genC05(r *rng, n int, hostile bool) []string {
 			big := fmt.Sprintf("I:%s:%s:%s:%s:%s", hx(r.bytes(8)), hx(bytesOf(0xA5, 128)), hx(r.bytes(pwLen(c.pw))), hx(bytesOf(0x5A, 128)), hx(r.bytes(8)))
 			out = append(out, fmt.Sprintf("gocra %s %s %s", hxs(spell(r, key)), su, big))
 			out = append(out, fmt.Sprintf("gocra %s %s %s", hxs(spell(r, key)), su, genInputFor(r, c)))
+		}
+	}
+	return out
+}
+
+// digestCollisions: pairs of distinct well-formed suite strings that agree under one of the standard 32-bit digests
+// (FNV-1, FNV-1a, CRC-32 IEEE and Castagnoli, Adler-32).  The answer for a suite string must be a function of the whole
+// string; anything that recognises a string by a short digest of it gives the second string of such a pair the first
+// one's configuration.  The pairs are found by a birthday search over the suite grammar (n strings: about n^2/2^33 pairs
+// per digest).
+func digestCollisions(r *rng, n int) [][2]string {
+	wide := func() string {
+		s := fmt.Sprintf("OCRA-1:HOTP-%s-%d:", pick(r, []string{"SHA1", "SHA256", "SHA512"}), 4+r.intn(7))
+		var toks []string
+		if r.intn(2) == 0 {
+			toks = append(toks, "C")
+		}
+		switch r.intn(8) {
+		case 0:
+			toks = append(toks, fmt.Sprintf("Q%s%02d", pick(r, []string{"N", "A", "H"}), 4+r.intn(61))) // the RFC's full range
+		case 1:
+		default:
+			toks = append(toks, pick(r, []string{"QN08", "QN10"})) // the formats of the registered suites
+		}
+		if r.intn(2) == 0 {
+			toks = append(toks, "P"+pick(r, []string{"SHA1", "SHA256", "SHA512"}))
+		}
+		if r.intn(8) != 0 { // mostly with the two numeric parts: they are what makes the space large enough for a birthday search
+			toks = append(toks, fmt.Sprintf("S%03d", r.intn(1000)))
+		}
+		if r.intn(8) != 0 {
+			switch r.intn(4) {
+			case 0:
+				toks = append(toks, fmt.Sprintf("T%dH", r.intn(49)))
+			case 1:
+				toks = append(toks, fmt.Sprintf("T%d%s", 1+r.intn(999), pick(r, []string{"S", "M", "H"})))
+			default:
+				toks = append(toks, fmt.Sprintf("T%d%s", 1+r.intn(59), pick(r, []string{"S", "M"})))
+			}
+		}
+		return s + strings.Join(toks, "-")
+	}
+	cast := crc32.MakeTable(crc32.Castagnoli)
+	digests := []func(string) uint32{
+		func(s string) uint32 { h := fnv.New32(); h.Write([]byte(s)); return h.Sum32() },
+		func(s string) uint32 { h := fnv.New32a(); h.Write([]byte(s)); return h.Sum32() },
+		func(s string) uint32 { return crc32.ChecksumIEEE([]byte(s)) },
+		func(s string) uint32 { return crc32.Checksum([]byte(s), cast) },
+		func(s string) uint32 { return adler32.Checksum([]byte(s)) },
+	}
+	seen := make([]map[uint32]string, len(digests))
+	for i := range seen {
+		seen[i] = make(map[uint32]string, n)
+	}
+	var out [][2]string
+	perDigest := make([]int, len(digests))
+	for i := 0; i < n; i++ {
+		s := wide()
+		for k, d := range digests {
+			h := d(s)
+			if o, ok := seen[k][h]; ok && o != s && perDigest[k] < 3 {
+				ca, _ := cfgOfRegistered(o)
+				cb, _ := cfgOfRegistered(s)
+				if ca.str() != cb.str() || !strings.EqualFold(o[:20], s[:20]) { // different configuration: a mix-up is visible
+					out = append(out, [2]string{o, s})
+					perDigest[k]++
+				}
+			} else if !ok {
+				seen[k][h] = s
+			}
+		}
+	}
+	return out
+}
+
+// admissibleInput builds an input every selected field of which has an admissible length (unselected fields empty)
+func admissibleInput(r *rng, c cfgT) string {
+	cl, ql, pl, sl, tl := 0, 0, 0, 0, 0
+	if c.c {
+		cl = 8
+	}
+	if c.q {
+		ql = minQ(c.challenge) + r.intn(100)
+	}
+	if c.p {
+		pl = pwLen(c.pw)
+	}
+	if c.s {
+		sl = 1 + r.intn(128)
+	}
+	if c.t {
+		tl = 8
+	}
+	return fmt.Sprintf("I:%s:%s:%s:%s:%s", genField(r, cl), genField(r, ql), genField(r, pl), genField(r, sl), genField(r, tl))
+}
+
+// genDigestPairs: histories in which two suite strings with a common 32-bit digest are used one after the other
+func genDigestPairs(r *rng, n int) []string {
+	var out []string
+	nb := 250000
+	if n >= 8000 {
+		nb = 400000
+	}
+	for _, pr := range digestCollisions(r, nb) {
+		key := r.bytes(20)
+		for _, name := range []string{pr[0], pr[1], pr[0]} {
+			c, _ := cfgOfRegistered(name)
+			out = append(out, fmt.Sprintf("parse %s", hxs(name)))
+			for k := 0; k < 2; k++ {
+				out = append(out, fmt.Sprintf("gocra %s R:%s %s", hxs(base32.StdEncoding.EncodeToString(key)), hxs(name), admissibleInput(r, c)))
+			}
 		}
 	}
 	return out
